@@ -1529,6 +1529,7 @@ public:
   void backward_assign_bool_cst(const variable_t &lhs,
                                 const linear_constraint_t &rhs,
                                 const bool_num_domain_t &inv) override {
+    m_product.backward_assign_bool_cst(lhs, rhs, inv.m_product);
     /** TODO(backward): this can be done better **/
     m_bool_to_lincsts -= lhs;
     m_bool_to_refcsts -= lhs;
